@@ -20,8 +20,12 @@ elif kind == "open":
     prop, kid, facet, clause, klass, replay = sys.argv[2:8]
     what = " ".join(sys.argv[8:])
     m = {"facet": facet, "clause": clause}
+    if clause == "*":
+        del m["clause"]
     if klass.startswith("prefix:"):
         m["klass_prefix"] = klass[7:]
+    elif klass.startswith("contains:"):
+        m["klass_contains"] = klass[9:]
     else:
         m["klass"] = klass
     e = {"status": "open", "id": kid, "property": prop, "match": m, "what": what,
